@@ -10,10 +10,10 @@ RULE = ('history generator of C01 with allocation trees of depth up to 4 per par
         'reservation => boosted, cumulative demand before already >= reservation in a dimension => not boosted, '
         'beyond cap => unplaced rank and not placed. Every 8th case runs the real Master.run_loop() on two threads '
         '(vf/master/realloop.py, see C09) with priorities changed by the operator at the joints of the start-up sequence, '
-        'while the master is busy with a batch of events, and across a second master: at idle the priority the master '
+        'while the master is busy with a batch of events, and across a second master (one Master-level history per shard submits more than a thousand instances at once: one listing of /scheduled names them all): at idle the priority the master '
         'queues an instance with is the one its manifest carries. Non-trivial: a cycle whose queue has >= 2 distinct ranks and '
         'both running and pending instances.')
-REQUIRED_REACH = {'*': ['evictions', 'real_loop_cases', 'real_loop_second_master_started']}
+REQUIRED_REACH = {'*': ['evictions', 'real_loop_cases', 'real_loop_second_master_started', 'instances_submitted_in_one_burst']}
 
 
 def _tweak(pf, rng):
